@@ -286,3 +286,82 @@ Definition case_ok (k : case) : bool := case_verdict k =? k_verdict k.
 
 Definition mismatches (cs : list case) : list N :=
   map k_id (filter (fun k => negb (case_ok k)) cs).
+
+
+(* ---------- the worker's arbitration between conflicting pool transactions ----------
+   (added after the blind changes, see design/C07.md)
+
+   The pool admits a Qi transaction by looking at the committed UTXO set only; two pool
+   transactions may name the same outpoint. The worker arbitrates while it fills a block:
+   core/worker.go processQiTx, input loop, with the per-block set env.deletedUtxos.
+   A pool transaction is reduced to what this arbitration looks at: the outpoints it names (in
+   order; outpoints are numbers) and whether all the OTHER checks of processQiTx (fee, gas,
+   ETX limits, denominations, ...) would let it in.  Outputs are not modelled: the worker reads
+   the committed set only (w.workerDb), the validator also sees the outputs created earlier in
+   the block (GetUTXOWithBatch), so the validator of this model is the stricter one. *)
+
+Definition memN (x : N) (l : list N) : bool := existsb (N.eqb x) l.
+Definition delN (x : N) (l : list N) : list N := filter (fun y => negb (y =? x)) l.
+
+Record ptx := mkP { p_ins : list N; p_rest_ok : bool }.
+
+Inductive rverdict := RAccept | RMissing | RContested (x : N).
+
+(* processQiTx, `for _, txIn := range tx.TxIn()`: GetUTXO == nil -> "spends non-existent UTXO";
+   already in env.deletedUtxos -> "double spends UTXO"; otherwise env.deletedUtxos[h] = {}.
+   Returns the set afterwards, the outpoints this transaction inserted itself, and the verdict. *)
+Fixpoint reserve (utxo res own ins : list N) : list N * list N * rverdict :=
+  match ins with
+  | [] => (res, own, RAccept)
+  | x :: r =>
+      if negb (memN x utxo) then (res, own, RMissing)
+      else if memN x res then (res, own, RContested x)
+      else reserve utxo (x :: res) (x :: own) r
+  end.
+
+(* What happens to the reservations of a transaction that is NOT included:
+   KeepAll      the code as it is: nothing is released (the inputs stay blocked for this block)
+   ReleaseOwn   a clean-up that releases exactly what the rejected transaction inserted itself
+   ReleaseNamed a clean-up that releases every outpoint the rejected transaction named so far,
+                including the contested one (which belongs to a transaction already included) *)
+Inductive policy := KeepAll | ReleaseOwn | ReleaseNamed.
+
+Definition cleanup (p : policy) (res own : list N) (v : rverdict) : list N :=
+  match p with
+  | KeepAll => res
+  | ReleaseOwn => fold_right delN res own
+  | ReleaseNamed =>
+      match v with
+      | RContested x => delN x (fold_right delN res own)
+      | _ => fold_right delN res own
+      end
+  end.
+
+(* one iteration of the Qi branch of worker.commitTransactions: (reserved set, selected list) *)
+Definition wstep (p : policy) (utxo : list N) (acc : list N * list ptx) (t : ptx) : list N * list ptx :=
+  let '(res, sel) := acc in
+  match reserve utxo res [] (p_ins t) with
+  | (res', own, RAccept) =>
+      if p_rest_ok t then (res', sel ++ [t]) else (cleanup p res' own RAccept, sel)
+  | (res', own, v) => (cleanup p res' own v, sel)
+  end.
+
+Definition wselect (p : policy) (utxo : list N) (pool : list ptx) : list ptx :=
+  snd (fold_left (wstep p utxo) pool ([], [])).
+
+(* validator: core/state_processor.go ProcessQiTx input loop inside Process' loop over the body:
+   every named outpoint must be in the set (GetUTXOWithBatch) and is deleted from it
+   (rawdb.DeleteUTXO(batch, ...)); the first failing transaction rejects the block. *)
+Fixpoint spend (utxo ins : list N) : option (list N) :=
+  match ins with
+  | [] => Some utxo
+  | x :: r => if memN x utxo then spend (delN x utxo) r else None
+  end.
+
+Fixpoint vspend (utxo : list N) (body : list ptx) : bool :=
+  match body with
+  | [] => true
+  | t :: r => match spend utxo (p_ins t) with Some u' => vspend u' r | None => false end
+  end.
+
+Definition spent_by (body : list ptx) : list N := flat_map p_ins body.
